@@ -476,5 +476,64 @@ theorem slack_zero (E : Env) (c : Annotation) (h : ∀ m : Mod, modMass E m = mo
   have h0 : 0 ≤ slack E c := by unfold slack; positivity
   linarith
 
+/-! ### the slack with multipliers: a tolerance per unit of modification -/
+
+/-- Σ |multiplier| -/
+def multSum : List Mod → ℚ
+  | [] => 0
+  | m :: r => |(m.mult : ℚ)| + multSum r
+
+theorem multSum_append (a b : List Mod) : multSum (a ++ b) = multSum a + multSum b := by
+  induction a with
+  | nil => simp [multSum]
+  | cons m a ih => simp only [List.cons_append, multSum, ih]; ring
+
+theorem sumMods_closeW (E : Env) (δ : ℚ) (l : List Mod)
+    (h : ∀ m ∈ l, |modMass E m - modMass (envC E) m| ≤ δ * |(m.mult : ℚ)|) :
+    |sumMods E l - sumMods (envC E) l| ≤ δ * multSum l := by
+  induction l with
+  | nil => simp [sumMods, multSum]
+  | cons m l ih =>
+    have h1 := h m (by simp)
+    have h2 := ih (fun m' hm' => h m' (by simp [hm']))
+    simp only [sumMods, multSum]
+    have e : modMass E m + sumMods E l - (modMass (envC E) m + sumMods (envC E) l) =
+        (modMass E m - modMass (envC E) m) + (sumMods E l - sumMods (envC E) l) := by ring
+    rw [e]
+    have := abs_add_le (modMass E m - modMass (envC E) m) (sumMods E l - sumMods (envC E) l)
+    linarith
+
+theorem optSum_closeW (E : Env) (δ : ℚ) (o : Option (List Mod))
+    (h : ∀ m ∈ o.getD [], |modMass E m - modMass (envC E) m| ≤ δ * |(m.mult : ℚ)|) :
+    |optSum E o - optSum (envC E) o| ≤ δ * multSum (o.getD []) := by
+  cases o with
+  | none => simp [optSum, multSum]
+  | some l => exact sumMods_closeW E δ l h
+
+theorem optIntervals_closeW (E : Env) (δ : ℚ) (o : Option (List Interval))
+    (h : ∀ m ∈ (o.getD []).flatMap (fun iv => iv.mods.getD []), |modMass E m - modMass (envC E) m| ≤ δ * |(m.mult : ℚ)|) :
+    |optIntervals E o - optIntervals (envC E) o| ≤ δ * multSum ((o.getD []).flatMap fun iv => iv.mods.getD []) := by
+  have := sumMods_closeW E δ _ h
+  rw [sumMods_flatMap_intervals, sumMods_flatMap_intervals] at this
+  cases o with
+  | none => simp [optIntervals, multSum]
+  | some l => simpa [optIntervals] using this
+
+/-- a tolerance `δ` per unit of modification (|tabulated − composition mass| ≤ δ·|multiplier|) bounds the slack by
+`δ · Σ|multiplier|` over the modifications written outside residue positions -/
+theorem slack_leW (E : Env) (c : Annotation) (δ : ℚ)
+    (h : ∀ m ∈ outsideMods c, |modMass E m - modMass (envC E) m| ≤ δ * |(m.mult : ℚ)|) :
+    slack E c ≤ δ * multSum (outsideMods c) := by
+  unfold outsideMods at h
+  simp only [List.mem_append] at h
+  have h1 := optSum_closeW E δ c.nterm (fun m hm => h m (Or.inl (Or.inl (Or.inl (Or.inl hm)))))
+  have h2 := optSum_closeW E δ c.cterm (fun m hm => h m (Or.inl (Or.inl (Or.inl (Or.inr hm)))))
+  have h3 := optSum_closeW E δ c.labile (fun m hm => h m (Or.inl (Or.inl (Or.inr hm))))
+  have h4 := optSum_closeW E δ c.unknown (fun m hm => h m (Or.inl (Or.inr hm)))
+  have h5 := optIntervals_closeW E δ c.intervals (fun m hm => h m (Or.inr hm))
+  unfold slack outsideMods
+  simp only [multSum_append]
+  nlinarith [h1, h2, h3, h4, h5]
+
 end CondenseMass
 end Pept
